@@ -4,7 +4,7 @@
    src/image.rs on every run, so every theorem below is re-checked against them. *)
 From Coq Require Import List NArith Bool Lia.
 From SNT Require Import Base.Outcome Image.KDTree Image.Octree Image.Quantize Image.Sixel Image.SixelDraw
-     Image.SixelBody Image.SixelPicture Image.SixelFinal Image.SixelCache Image.SixelFast Image.SixelFastProofs
+     Image.SixelBody Image.SixelPicture Image.SixelFinal Image.SixelCache Image.SixelFast Image.SixelFastProofs Image.SixelView Surface.Shape
      Gen.TabSixel.
 Import ListNotations.
 Local Open Scope N_scope.
@@ -38,7 +38,7 @@ Proof. exact sixel_roundtrip. Qed.
    colour) and every iteration order, the output decodes to a picture of size
    w x (h - h mod 6), every pixel painted with its quantised colour, none outside, at
    most 256 registers (picture_ok), the palette having at most 256 entries. *)
-Theorem C12_decode : forall (rows : list (list spx)) (w : nat),
+Theorem C12_decode_upto_2p56px : forall (rows : list (list spx)) (w : nat),
   src_ok rows w ->
   exists pal q,
     quantize (sixel_eff rows) sixel_palette_size sixel_dither = Ok (pal, q) /\
@@ -52,10 +52,24 @@ Theorem C12_decode : forall (rows : list (list spx)) (w : nat),
                     pixel_at (p_events pic) (N.of_nat xn) (N.of_nat yn) = Some (map3 scale p).
 Proof. exact draw_decodes. Qed.
 
-(* ... including cropped views: Image::crop only changes the Shape over the shared pixel
-   buffer; the handler is given the window `view_rows parent crop` (C07: a Shape view is
-   that window) and everything above holds of the window, wherever it lies in its parent *)
-Theorem C12_decode_view : forall (parent : list (list spx)) crop (w : nat),
+(* Cropped views.  An Image is (buffer, Shape); Image::crop keeps the buffer and takes
+   Shape::view.  What the code reads at (r, c) of the cropped image, buffer[shape.offset(r, c)]
+   (C07's model Surface/Shape.v: view, offset, get; lemmas rep_root, rep_view, rep_offset), is
+   entry (r, c) of the window `view_rows parent (Some (r0, r1, c0, c1))`, wherever the window
+   lies in its parent. *)
+Theorem C12_crop_reads_view : forall (parent : list (list spx)) (H W r0 r1 c0 c1 r c : nat),
+  length parent = H -> Forall (fun row => length row = W) parent ->
+  (r0 < r1 <= H)%nat -> (c0 < c1 <= W)%nat -> (r < r1 - r0)%nat -> (c < c1 - c0)%nat ->
+  Shape.get (Shape.view (Shape.of_size H W) (Some (r0, r1)) (Some (c0, c1))) (concat parent) r c
+  = match nth_error (view_rows parent (Some (r0, r1, c0, c1))) r with
+    | Some row => nth_error row c
+    | None => None
+    end.
+Proof. exact crop_is_view_rows. Qed.
+
+(* ... so the draw theorems apply to the window (an instance of C12_decode_upto_2p56px:
+   picture_ok of the window's picture; auxiliary, not counted) *)
+Lemma C12_decode_view : forall (parent : list (list spx)) crop (w : nat),
   src_ok (view_rows parent crop) w ->
   exists pal q,
     quantize (sixel_eff (view_rows parent crop)) sixel_palette_size sixel_dither = Ok (pal, q) /\
@@ -68,7 +82,7 @@ Proof. exact draw_decodes_view. Qed.
 
 (* At most 256 distinct colours (below the subsampling threshold): the decoded picture
    equals the source at sixel's 0..100 resolution, pixel for pixel. *)
-Theorem C12_exact : forall (rows : list (list spx)) (w : nat),
+Theorem C12_exact_upto_2p56px : forall (rows : list (list spx)) (w : nat),
   src_ok rows w ->
   distinct_colors (sixel_eff rows) <= 256 -> sample_of (sixel_eff rows) sixel_palette_size < 2 ->
   exists pal q,
@@ -80,7 +94,7 @@ Theorem C12_exact : forall (rows : list (list spx)) (w : nat),
         pixel_at (p_events pic) (N.of_nat xn) (N.of_nat yn) = Some (src100 p).
 Proof. exact draw_exact. Qed.
 
-(* the hypothesis of C12_exact is the property's "at most 256 distinct colours at
+(* the hypothesis of C12_exact_upto_2p56px is the property's "at most 256 distinct colours at
    sixel's 0-100 channel resolution" *)
 Theorem C12_distinct_at_resolution : forall rows w,
   src_ok rows w -> distinct_colors (sixel_eff rows) = distinct100 rows.
@@ -103,8 +117,9 @@ Definition ex_rows_def : list (list spx) :=
    IMAGE_CACHE_SIZE, keyed by content hash, fresh encodings by sixel_draw under each draw's
    own hash-map order): while everything drawn fits the cache, a later draw of an image
    (same key) returns exactly the bytes of its first draw, whatever order a fresh encoding
-   would use now.  Assumes the key identifies the view's content (64-bit FNV hash). *)
-Theorem C12_repeat : forall (ds : list draw_req) i j key rows oi rows' oj b,
+   would use now.  Assumes the key identifies the view's content (64-bit FNV hash).
+   The hypothesis `total <= sixel_cache_limit` is essential: see the refutation below. *)
+Theorem C12_repeat_while_cached : forall (ds : list draw_req) i j key rows oi rows' oj b,
   total (map cache_req ds) <= sixel_cache_limit ->
   nth_error ds i = Some (key, rows, oi) -> sixel_draw rows oi = Ok b -> b <> [] ->
   (forall i' d, (i' < i)%nat -> nth_error ds i' = Some d -> fst (fst d) <> key) ->
@@ -112,8 +127,19 @@ Theorem C12_repeat : forall (ds : list draw_req) i j key rows oi rows' oj b,
   nth_error (handler_run ds) i = Some b /\ nth_error (handler_run ds) j = Some b.
 Proof. exact repeat_draw. Qed.
 
-(* the cache alone, for any limit: hits return the first bytes while the draws fit *)
-Theorem C12_cache_repeat : forall limit ds key b i j fresh,
+(* "drawing the same image again emits identical bytes" is FALSE once its entry has been evicted:
+   the image is encoded again, under whatever hash-map order that draw has.  (The real limit
+   is 128 MB of sixel text on one handler; the correspondence forces evictions through the
+   verif-hooks size override and observes exactly this.) *)
+Theorem C12_repeat_refuted_after_eviction :
+  exists limit ds,
+    nth_error ds 0 = Some (1, Some [1; 2; 3]) /\ nth_error ds 2 = Some (1, Some [9]) /\
+    nth_error (hrun limit ([], 0) ds) 0 = Some [1; 2; 3] /\
+    nth_error (hrun limit ([], 0) ds) 2 = Some [9].
+Proof. exists 4, [(1, Some [1; 2; 3]); (2, Some [4; 5; 6]); (1, Some [9])]. vm_compute. repeat split; reflexivity. Qed.
+
+(* (auxiliary) the cache alone, for any limit: hits return the first bytes while the draws fit *)
+Lemma C12_cache_repeat : forall limit ds key b i j fresh,
   total ds <= limit ->
   nth_error ds i = Some (key, Some b) ->
   (forall i', (i' < i)%nat -> forall f, nth_error ds i' <> Some (key, f)) ->
@@ -129,14 +155,15 @@ Proof. split; [vm_compute; reflexivity|vm_compute; discriminate]. Qed.
 
 (* The predicates the correspondence evaluates on the implementation's bytes (map-based,
    O(n log n)) are the predicates of the theorems above. *)
-Theorem C12_checked_predicates : forall w h p,
+(* auxiliary, about the specification predicates only *)
+Lemma C12_checked_predicates : forall w h p,
   picture_ok_fast w h p = picture_ok w h p /\
   (forall expected, picture_ok_fast w h p = true ->
      Forall (fun r => N.of_nat (length r) = w) expected ->
      picture_eq_fast w expected p = picture_eq expected p).
 Proof. exact fast_predicates. Qed.
 
-Check C12_decode : forall (rows : list (list spx)) (w : nat), src_ok rows w ->
+Check C12_decode_upto_2p56px : forall (rows : list (list spx)) (w : nat), src_ok rows w ->
   exists pal q, quantize (sixel_eff rows) sixel_palette_size sixel_dither = Ok (pal, q) /\
     (length pal <= 256)%nat /\
     forall orders, orders_ok q orders = true ->
@@ -180,3 +207,22 @@ Proof.
   - vm_compute. discriminate.
   - eexists. split; [vm_compute; reflexivity|vm_compute; reflexivity].
 Qed.
+
+(* a crop that does not start at the origin: rows 1..13, columns 1..5 of the 13 x 6 image below *)
+Example C12_decode_view_nonvacuous :
+  src_ok (view_rows ex_rows (Some (1, 13, 1, 5))%nat) 4 /\
+  view_rows ex_rows (Some (1, 13, 1, 5))%nat <> firstn 12 (map (firstn 4) ex_rows) /\
+  match sixel_draw (view_rows ex_rows (Some (1, 13, 1, 5))%nat) [[2; 0; 1]; [2; 1]] with
+  | Ok bytes => match sixel_decode bytes with
+                | Some p => picture_ok 4 12 p && picture_eq (sixel_src100 (view_rows ex_rows (Some (1, 13, 1, 5))%nat)) p
+                | None => false
+                end
+  | _ => false
+  end = true.
+Proof.
+  split; [|split].
+  - repeat split; try (cbn; lia); try (apply N.leb_le; vm_compute; reflexivity); repeat constructor.
+  - vm_compute. discriminate.
+  - vm_compute. reflexivity.
+Qed.
+
